@@ -519,6 +519,7 @@ func c18(r *engine.Run) {
 	addCases(cScrypt, nil, tiny, map[string][]byte{"right": []byte("pw"), "wrong": []byte("pw!"), "empty": {}})
 	addCases(cXor, nil, tiny, map[string][]byte{"right": []byte("pw"), "wrong": []byte("pw!"), "empty": {}})
 
+	partC := c18History(r, oc)
 	tick("b_generate", t0)
 	t1 := time.Now()
 	// reference expectations (parallel; scrypt with N ≤ 2^16 inside)
@@ -654,6 +655,7 @@ func c18(r *engine.Run) {
 		"lock_unlock_default_scrypt": len(defPairs),
 		"worker_batches":             nb,
 		"phase_seconds":              phase,
+		"history_independence":       partC,
 		"alphabet": map[string]interface{}{"wallet_kinds": len(kinds), "passwords": len(c18Passwords), "ciphers": 4, "scrypt_base_ciphertexts": len(sb), "xor_base_ciphertexts": len(xb),
 			"scrypt_meta_product": product, "scrypt_meta_single": single, "tiny_base64_strings": len(tiny)},
 	})
